@@ -46,7 +46,7 @@ fn random_line(r: &mut Rng) -> String {
             // a negative sexagesimal value, also with zero degrees (less than a degree south or west)
             6 => format!("-{}:{}:{}", r.pick(&[0, 0, 1, 12, 55]), r.range(0, 59), r.range(1, 59)),
             7 => format!("-0:{}", r.range(1, 59)),
-            2 => format!("{:.3}", r.uniform(-1000.0, 1000.0)),
+            2 => format!("{:.3}{}", r.uniform(-1000.0, 1000.0), r.pick(&["", "", "", "N", "s", "E", "w"])),
             3 => format!("{:e}", r.uniform(-1.0, 1.0)),
             _ => format!("{:.6}", r.uniform(-90.0, 90.0)),
         }
@@ -132,12 +132,23 @@ pub fn generate(g: &mut Gen, thorough: bool) {
         ("geo:in | lcc lat_1=33 lat_2=45 lon_0=10", "40 12\n90 10\n45 11\n90 -20\n90:00:00N 3\n"),
         ("geo:in | lcc lat_1=-33 lon_0=10", "-40 12\n-90 10\n-45 11\n"),
         ("geo:in | laea lat_0=90 lon_0=10", "80 12\n90 10\n85 11\n"),
+        // ... nor on which grid of a list served the line before
+        ("geo:in | gridshift grids=test_subset.datum, test.datum", "55 12\n55.97 11.33\n55.5 12.5\n55.97 11.33\n56.2 11.1\n54.9 9\n55.97 11.33\n"),
+        ("geo:in | gridshift grids=test_subset.datum, test.datum | geo:out", "55.97 11.33\n55 12\n55.97 11.33\n"),
+        // a hemisphere letter goes with plain numbers too
+        ("geo:in | utm zone=32", "55.5N 9.25E\n33.5S 9E\n3n 12.75e\n55:30N 12\n"),
+        ("addone", "33.5S 9.25W\n3w 4s 5 6\n"),
     ] {
         for rt in [false, true] {
+            // (the two test grids of the list disagree on purpose: on the border of the first one the inverse does not
+            // converge, which --roundtrip turns into the count mismatch recorded as a known finding - not asked for again)
+            if rt && op.contains("test_subset.datum") {
+                continue;
+            }
             for dim in [2, 4] {
                 let c = KpCase { inv: false, rt, z: None, t: None, d: Some(3), dim: Some(dim), op: op.into(), files: vec![Some(lines.into())] };
                 g.push(c.line("S_C20"), "oracle-failing-tuples", true);
-                if op == "cart" {
+                if op == "cart" || op == "addone" || op == "geo:in | utm zone=32" {
                     g.push(c.line("KP"), "kp-failing-tuples", true);
                 }
             }
